@@ -251,3 +251,23 @@ Theorem C18_mapped_monitor_sound_partial : forall c ifs e res pub socks, nts_ok 
   forall n, In n sound_checks -> ~ In n (failed (C18_mapped_checks c ifs pub socks)).
 Proof. exact mapped_monitor_sound_partial. Qed.
 Print Assumptions C18_mapped_monitor_sound_partial.
+
+(* ---- the UDP-mux host gatherer (gatherCandidatesLocalUDPMux; cases "gudpmux": host candidates only, a UDP mux) *)
+
+(* repaired gatherer (66d9e78, bc8bb76): every candidate is a host candidate (that type enabled) of an ENABLED UDP
+   network type -- the family of the mux's listen address, also behind an mDNS name -- on a connection borrowed from
+   the mux, with the port of the listen address *)
+Theorem C18_udpmux_sound : forall c addrs d,
+  In d (udpmux_model true c addrs) ->
+  d_type d = 1 /\ In 1 (c_ctypes c) /\ In (d_nt d) (eff_nts (c_ntypes c)) /\ d_sock d = None /\ d_base d = None /\
+  exists a port, In (a, port) addrs /\ d_port d = PExact port /\ d_disp d = host_disp c a /\ d_nt d = nt_of TUdp (a6 a).
+Proof. exact udpmux_sound. Qed.
+Print Assumptions C18_udpmux_sound.
+
+(* the pinned gatherer published candidates of a network type that is not enabled (finding, repaired) *)
+Theorem C18_udpmux_disabled_family_refuted :
+  let c := mkCfg [1] [1] 0 0 true false EmptyString None None false [] in
+  let v6 := mkAddr true [0;0;0;0;0;0;0;0;0;0;0;0;0;0;0;1] in
+  exists d, In d (udpmux_model false c [(v6, 7000)]) /\ d_pub d = true /\ ~ In (d_nt d) (eff_nts (c_ntypes c)).
+Proof. exact udpmux_disabled_family_refuted. Qed.
+Print Assumptions C18_udpmux_disabled_family_refuted.
